@@ -28,6 +28,7 @@ type Config struct {
 	Mult           int     `json:"mult"`
 	CompactPct     float64 `json:"compact_pct"`
 	BufPages       int     `json:"buf_pages"`
+	OpYield        bool    `json:"op_yield,omitempty"` // the merge operator is a scheduling point (step m3)
 	MergeOp        bool    `json:"merge_op"`
 	MaxDirtyOps    uint64  `json:"max_dirty_ops"`
 	MaxPre         int     `json:"max_pre"`
@@ -62,6 +63,9 @@ func (c Config) String() string {
 	}
 	if c.CachePersisted {
 		s += "/cp"
+	}
+	if c.OpYield {
+		s += "/opyield"
 	}
 	if c.MergeOp {
 		s += "/mo"
@@ -179,7 +183,7 @@ func (w *World) collOptions() moss.CollectionOptions {
 		co.MergerIdleRunTimeoutMS = -1
 	}
 	if w.cfg.MergeOp {
-		co.MergeOperator = appendMergeOperator{}
+		co.MergeOperator = appendMergeOperator{Yield: w.cfg.OpYield}
 	}
 	return co
 }
@@ -523,6 +527,26 @@ func (w *World) Step(st string) bool {
 		w.gateFlag = true
 		w.run(w.persister)
 		w.obsPersister = nil
+		w.settle()
+		return true
+	case st == "m3": // deviation: advance the merger to its next call of the merge operator (or to the end of its cycle)
+		t := w.merger
+		if w.closedColl || t == nil || !w.s.Enabled(t) {
+			return false
+		}
+		atOp := func() bool { return !t.Done && t.PendingKind() == vs.KYield && t.PendingLabel() == "merge-op" }
+		key := w.Key()
+		w.s.Step(t, 0)
+		for n := 0; w.s.Enabled(t) && !atOp() && n < 100000; n++ {
+			w.s.Step(t, 0)
+			w.helpers()
+		}
+		w.helpers()
+		if atOp() {
+			w.obsMerger = append(w.obsMerger, shortHash(key))
+		} else {
+			w.obsMerger = nil
+		}
 		w.settle()
 		return true
 	case st[0] == 'm' || st[0] == 'p': // deviation: advance one critical section of the collection mutex
